@@ -1043,11 +1043,32 @@ def model_with_input(impl, tproto):
     return h.make_model(g, opset_imports=[h.make_opsetid("", 17)])
 
 
-def inline_boundary_outcome(impl, a, b):
-    """'ok' | 'TypeError' | other exception name, for a Var of type a fed to an inlined model whose input has type b."""
-    m = model_with_input(impl, b._to_onnx())
+def model_with_two_inputs(impl, tproto, untyped_first):
+    """As model_with_input, with a second input `u` (float32, any shape) before or after `x`."""
+    h = impl.onnx.helper
+    u = h.make_tensor_value_info("u", impl.onnx.TensorProto.FLOAT, None)
+    x = h.make_value_info("x", tproto)
+    g = h.make_graph([h.make_node("Identity", ["x"], ["y"])], "g", [u, x] if untyped_first else [x, u], [h.make_value_info("y", tproto)])
+    return h.make_model(g, opset_imports=[h.make_opsetid("", 17)])
+
+
+def inline_boundary_outcome(impl, a, b, position="alone"):
+    """'ok' | 'TypeError' | other exception name, for a Var of type a fed to an inlined model whose input has type b - alone, or next to
+    an UNTYPED Var (output of a user-defined operator without type hook) given for another input before / after it: the judgement of
+    one argument does not depend on its neighbours."""
     try:
-        impl.spox.inline(m)(impl.spox.argument(a))
+        if position == "alone":
+            m = model_with_input(impl, b._to_onnx())
+            impl.spox.inline(m)(impl.spox.argument(a))
+        else:
+            from harness.opaque_node import untyped
+            import numpy as _np
+            un = untyped(impl.spox.argument(impl.Tensor(_np.float32, (2,))))
+            m = model_with_two_inputs(impl, b._to_onnx(), position == "after-untyped")
+            args = (un, impl.spox.argument(a)) if position == "after-untyped" else (impl.spox.argument(a), un)
+            with __import__("warnings").catch_warnings():
+                __import__("warnings").simplefilter("ignore")
+                impl.spox.inline(m)(*args)
         return "ok"
     except TypeError:
         return "TypeError"
@@ -1064,16 +1085,18 @@ def check_inline(run, impl, cov, pairs, vals):
         (comp if v & 1 else incomp).append((i, j))
     chosen = comp[:want] + incomp[:want]
     outcomes = {}
-    for i, j in chosen:
+    for idx, (i, j) in enumerate(chosen):
         a, b = impl.mk_type(i), impl.mk_type(j)
-        out = inline_boundary_outcome(impl, a, b)
-        outcomes[out] = outcomes.get(out, 0) + 1
         common = impl.common_value(a, b) is not None
-        if out not in ("ok", "TypeError") or (out == "ok") != common:
-            what = "accepts-incompatible-argument" if out == "ok" else ("rejects-compatible-argument" if out == "TypeError" else f"raises-{out}")
-            run.fail("impl", f"C13/inline-boundary/{what}", f"spox.inline call boundary {what.replace('-', ' ')}",
-                     {"case": "inline", "i": i, "j": j, "argument_type": describe(impl, i), "model_input_type": describe(impl, j), "outcome": out,
-                      "common_value_exists": common})
+        for position in (("alone",) if idx % 4 else ("alone", "after-untyped", "before-untyped")):
+            out = inline_boundary_outcome(impl, a, b, position)
+            outcomes[out] = outcomes.get(out, 0) + 1
+            if out not in ("ok", "TypeError") or (out == "ok") != common:
+                what = "accepts-incompatible-argument" if out == "ok" else ("rejects-compatible-argument" if out == "TypeError" else f"raises-{out}")
+                what += "" if position == "alone" else "/" + position
+                run.fail("impl", f"C13/inline-boundary/{what}", f"spox.inline call boundary {what.replace('-', ' ')}",
+                         {"case": "inline", "i": i, "j": j, "argument_type": describe(impl, i), "model_input_type": describe(impl, j), "outcome": out,
+                          "common_value_exists": common, "position": position})
     cov["inline_boundary"] = dict(count=len(chosen), compatible=min(want, len(comp)), incompatible=min(want, len(incomp)), outcomes=outcomes)
     return len(chosen)
 
